@@ -37,7 +37,8 @@ Record frame := mkFrame {
   f_cl : consistency;             (* consistency field of the frame *)
   f_arr : N;                      (* arrival instant *)
   f_ans : answer;
-  f_done : N                      (* instant the answer was logged; meaningful unless AnsNone *)
+  f_done : N;                     (* instant the answer was logged; meaningful unless AnsNone *)
+  f_shard : N                     (* server-side shard of the connection the frame arrived on *)
 }.
 
 (* what the caller of the session API got *)
@@ -103,8 +104,22 @@ Fixpoint seq_ok (frs : list frame) : bool :=
   | [] => true
   | f :: rest =>
       match rest with
-      | [] => true
+      | [] => negb (answered f) || (f_arr f <=? f_done f)
       | g :: _ => answered f && (f_arr f <=? f_done f) && (f_done f <=? f_arr g) && seq_ok rest
+      end
+  end.
+
+(* a plan target is a (node, shard) pair: consecutive frames of a fiber on one node are attempts on
+   the same target (RetrySameTarget) and arrive on that shard again -- unless the node lost a
+   connection (then the pool may hand out a connection of another shard) *)
+Fixpoint shards_ok (down : list N) (frs : list frame) : bool :=
+  match frs with
+  | [] => true
+  | f :: rest =>
+      match rest with
+      | [] => true
+      | g :: _ => (negb (f_node g =? f_node f) || (f_shard g =? f_shard f) || memN (f_node f) down)
+                  && shards_ok down rest
       end
   end.
 
@@ -123,7 +138,7 @@ Definition fiber_check (p : policy) (idem : bool) (cl0 : consistency) (down : li
            (c : cert) (frs : list frame) : option (fiber_result N) :=
   let (tr, r) := fiber p idem cl0 (c_plan c) (c_outs c) in
   if match_frames (c_free c) (attempts tr) frs
-     && seq_ok frs
+     && seq_ok frs && shards_ok down frs
      && forallb (fun t => memN t down) (conn_fail_targets tr)
   then Some r else None.
 
@@ -313,3 +328,22 @@ Definition prop_frames (p : policy) (idem : bool) (spec : option nat) (nnodes : 
   | Some max =>
       (List.length frs <=? frame_bound p (1 + max) nnodes)%nat
   end.
+
+(* every node of the cluster got a frame of this request, except nodes whose connection was cut: the
+   plan of the request was used up *)
+Definition nodes_covered (nodes down : list N) (frs : list frame) : bool :=
+  forallb (fun n => memN n down || existsb (fun f => f_node f =? n) frs) nodes.
+
+(* Client-side request timeout (`tokio::time::timeout(timeout, runner)` around the whole execution in
+   run_request_no_side_effects): when the timer fires the runner future is dropped -- every fiber is
+   cancelled where it stands, the caller gets RequestTimeout, nothing is retried.  On the wire: per
+   fiber a run of the model up to the moment it was cancelled (at most one fiber when the gate is
+   closed), the call returned no earlier than [tmo] after it started, and no frame arrives more than
+   [margin] after it returned. *)
+Definition check_timeout (p : policy) (idem : bool) (spec : option nat) (cl0 : consistency)
+           (nodes down : list N) (cs : list cert) (assign : list nat) (frs : list frame)
+           (t0 tmo tret margin : N) : bool :=
+  multi_ok p idem cl0 nodes down (match gate_open idem spec with Some m => m | None => 0%nat end)
+           cs assign frs
+  && (t0 + tmo <=? tret)
+  && forallb (fun f => f_arr f <=? tret + margin) frs.
